@@ -58,9 +58,18 @@ type FloatV struct {
 }
 
 type StrV struct {
-	S string  // concrete content when B == nil
-	B []*Term // per-byte terms (width 8) when any byte is symbolic
-	T bool    // tainted: chosen by a random draw through a fork
+	S string    // concrete content when B == nil
+	B []*Term   // per-byte terms (width 8) when any byte is symbolic
+	T bool      // tainted: chosen by a random draw through a fork
+	P *pickInfo // when the string is options[idx] for a symbolic idx
+}
+
+// pickInfo remembers that a symbolic string is a selection among concrete
+// strings, so that pure string functions can be mapped over the options.
+type pickInfo struct {
+	idx  *Term
+	at   []int // option i corresponds to idx == at[i]
+	opts []*StrV
 }
 
 type Iface struct {
@@ -167,18 +176,63 @@ func strFromBytes(b []*Term, taint bool) *StrV {
 	return &StrV{B: append([]*Term(nil), b...), T: taint}
 }
 
+func samePick(a, b *pickInfo) bool {
+	if a == nil || b == nil || !sameTerm(a.idx, b.idx) || len(a.at) != len(b.at) {
+		return false
+	}
+	for i := range a.at {
+		if a.at[i] != b.at[i] {
+			return false
+		}
+	}
+	return true
+}
+
 func strConcat(a, b *StrV) *StrV {
 	if a.Conc() && b.Conc() {
 		return &StrV{S: a.S + b.S, T: a.T || b.T}
 	}
-	return strFromBytes(append(append([]*Term(nil), a.Bytes()...), b.Bytes()...), a.T || b.T)
+	r := strFromBytes(append(append([]*Term(nil), a.Bytes()...), b.Bytes()...), a.T || b.T)
+	if r.Conc() {
+		return r
+	}
+	// keep the "selection among concrete strings" view when possible
+	switch {
+	case a.P != nil && b.Conc():
+		pi := &pickInfo{idx: a.P.idx, at: a.P.at}
+		for _, o := range a.P.opts {
+			pi.opts = append(pi.opts, &StrV{S: o.S + b.S})
+		}
+		r.P = pi
+	case b.P != nil && a.Conc():
+		pi := &pickInfo{idx: b.P.idx, at: b.P.at}
+		for _, o := range b.P.opts {
+			pi.opts = append(pi.opts, &StrV{S: a.S + o.S})
+		}
+		r.P = pi
+	case samePick(a.P, b.P):
+		pi := &pickInfo{idx: a.P.idx, at: a.P.at}
+		for i, o := range a.P.opts {
+			pi.opts = append(pi.opts, &StrV{S: o.S + b.P.opts[i].S})
+		}
+		r.P = pi
+	}
+	return r
 }
 
 func strSlice(s *StrV, lo, hi int) *StrV {
 	if s.Conc() {
 		return &StrV{S: s.S[lo:hi], T: s.T}
 	}
-	return strFromBytes(s.B[lo:hi], s.T)
+	r := strFromBytes(s.B[lo:hi], s.T)
+	if s.P != nil && !r.Conc() {
+		pi := &pickInfo{idx: s.P.idx, at: s.P.at}
+		for _, o := range s.P.opts {
+			pi.opts = append(pi.opts, &StrV{S: o.S[lo:hi]})
+		}
+		r.P = pi
+	}
+	return r
 }
 
 func strEq(a, b *StrV) *Term {
